@@ -125,6 +125,51 @@ def decoded : Outbound → Option (Option Json)
   | .raw s => some (dec s)
   | .unserialisable => none
 
+/-! ## Several connections, and other users of the serialiser, in one process
+
+`sendsTagged`: outbound items of several live connections put on their write streams in any
+alternation (tag = connection); every connection has its own writer task and its own child.
+`Call`: the process also serialises other things (`fast_json.dumps(v, indent=…, sort_keys=…)` by the
+server side, by tools, …) between the writer's messages; the serialiser keeps no state between
+calls (its option word is a local of each call), so such calls produce their own text and nothing else. -/
+
+def sendsTagged (st : Style) (items : List (Nat × Outbound)) (i : Nat) : List (List Nat) :=
+  sends st (items.filterMap (fun p => if p.1 = i then some p.2 else none))
+
+/-- stateful play of the same history: one pipe per connection, appended to in history order -/
+def playTagged (st : Style) : (Nat → List (List Nat)) → List (Nat × Outbound) → (Nat → List (List Nat))
+  | pipes, [] => pipes
+  | pipes, (i, it) :: rest =>
+    let add := match ser st it with
+      | some l => [encode (codes l ++ [LF])]
+      | none => []
+    playTagged st (fun j => if j = i then pipes j ++ add else pipes j) rest
+
+structure Kw where
+  indent : Bool
+  sortKeys : Bool
+
+inductive Call where
+  /-- somebody else's `fast_json.dumps(v, **kw)` -/
+  | dumps (kw : Kw) (v : Json)
+  /-- the next message of the write stream -/
+  | message (it : Outbound)
+
+/-- what reaches the child over a history of calls: only the writer's messages, each serialised with
+the writer's own (default) arguments -/
+def playCalls (st : Style) : List Call → List (List Nat)
+  | [] => []
+  | .dumps _ _ :: rest => playCalls st rest
+  | .message it :: rest =>
+    (match ser st it with
+      | some l => [encode (codes l ++ [LF])]
+      | none => []) ++ playCalls st rest
+
+def messagesOf : List Call → List Outbound
+  | [] => []
+  | .dumps _ _ :: rest => messagesOf rest
+  | .message it :: rest => it :: messagesOf rest
+
 /-! ## Entry guards (`StdioClient.__init__`, `_ensure_streams_initialized`, `StdioTransport`)
 
     __init__:  if not server.command: raise ValueError ; if not isinstance(server.args, (list, tuple)): raise ValueError
